@@ -130,6 +130,27 @@ Fixpoint answered_b (acked : list N) (script : list (list N * list N))
   | _, _ => false
   end.
 
+(* corpus flow c34_sum: the state is the sum of all writes (a Singleton in the atomic region),
+   a read r is answered (r, sum after this tick's writes) *)
+Definition sum_obs (o : aobs N N) : list N * list (N * N) :=
+  (fst o, map (fun rs => (fst rs, fold_right N.add 0 (snd rs))) (snd o)).
+Definition prod_sum (script : list (list N * list N)) : list (list N * list (N * N)) :=
+  map sum_obs (run_atomic N N (mkA N N [] [] [])
+                 (map (fun wr => prod_tick (fst wr) (snd wr)) script)).
+(* read-after-write on observed outputs: every response of tick j carries at least the sum of the
+   acknowledgements released in ticks <= j (writes are non-negative) *)
+Fixpoint raw_sum_b (acked : N) (obs : list (list N * list (N * N))) : bool :=
+  match obs with
+  | [] => true
+  | (acks, reads) :: r =>
+      let acked' := acked + fold_right N.add 0 acks in
+      forallb (fun rs => acked' <=? snd rs) reads && raw_sum_b acked' r
+  end.
+Definition c34_sum_verdict (script : list (list N * list N)) (impl : list (list N * list (N * N))) : N :=
+  v_of (negb (obss_eqb (prod_sum script) impl))
+       (negb (raw_sum_b 0 impl
+              && Nat.eqb (length (concat (map snd script))) (length (concat (map snd impl))))).
+
 Definition c34_verdict (script : list (list N * list N)) (impl : list (list N * list (N * N))) : N :=
   v_of (negb (obss_eqb (prod_counter script) impl))
        (negb (raw_b [] impl && answered_b [] script impl)).
